@@ -1,15 +1,16 @@
 ---------------------------- MODULE FsAtomicProto ----------------------------
-(* Design-level check of the file model itself on hand-written update protocols for one target file
-   "f" (original <<1,2,3>>, new content <<7,8>>).  TLC explores each protocol with every Kill /
-   WriteFault / power-loss point; the driver asserts the expected verdicts on every run (a self-check of
-   the model's discriminating power):
+(* Hand-written update protocols (scripts of events) for the design-level check of FsAtomic, one target file
+   "f" (original <<1,2,3>>, new content <<7,8>>).  FsAtomic (which EXTENDS this module and uses `All` as
+   its script when no recording is given) explores each protocol with every Kill / WriteFault /
+   power-loss point; the driver asserts the expected verdicts on every run (a self-check of the
+   model's discriminating power):
 
      InPlace        open(O_TRUNC); write; close                       violates InvKill
      TempRename     open(tmp,O_EXCL); write; fsync; close; rename      satisfies InvKill and InvPower
      TempNoSync     open(tmp,O_EXCL); write; close; rename             satisfies InvKill, violates InvPower
      UnlinkFirst    write tmp; fsync; unlink f; rename                violates InvKill (f missing)
      RenameOpen     open(tmp); rename; write; close                   violates InvKill            *)
-EXTENDS FsAtomic
+EXTENDS Naturals, Sequences
 
 Orig == <<1, 2, 3>>
 New == <<7, 8>>
@@ -34,5 +35,4 @@ RenameOpen  == <<Reset, Open("t", 3, TRUE, FALSE, TRUE), Rename("t", "f"), Write
 WithRun(sc, r) == [i \in DOMAIN sc |-> IF i = 1 THEN [sc[i] EXCEPT !.run = r] ELSE sc[i]]
 All == WithRun(InPlace, 1) \o WithRun(TempRename, 2) \o WithRun(TempNoSync, 3) \o WithRun(UnlinkFirst, 4)
        \o WithRun(RenameOpen, 5)
-Consumed == TLCGet("stats").diameter >= Len(Script) + 1
 =============================================================================
